@@ -1,3 +1,5 @@
+import PyrollModel.Gen.C02Hooks
+
 /-
   Lifecycle — model of the hook value life-cycle of pyroll.core (C02).
 
@@ -14,7 +16,14 @@
     (`get` = `Hook.__get__`, `unset` = its cache/compute part, `chain` = the loop of `get_result`,
     `body` = one function body); exhausted fuel is the result `fuelOut`.
 
-  Import-free; executable; tied to the code by driver/props/c02.py.
+  SOURCE TIE (T): four parts are not written down here but CONSUMED from `PyrollModel/Gen/C02Hooks.lean`, which
+  `driver/translate/hooks_skeleton.py` regenerates from `pyroll/core/hooks.py` on every run of `./check C02`:
+    `Gen.C02.Hooks.hasSetIn`, `hasCachedIn`  → `hasSet`, `hasCached` (the dictionary whose keys `has_set` / `has_cached` test),
+    `Gen.C02.Hooks.reevalMode`               → `reeval` (what `reevaluate_cache` does with the remembered names),
+    `Gen.C02.Hooks.getChecks`, `getStoreAfter` → `noneOutcome` (a `None` result of `get_result` raises AttributeError and
+                                                 nothing is stored: the check exists and precedes the store).
+
+  Executable; tied to the code by driver/props/c02.py.
 -/
 
 namespace Life
@@ -152,10 +161,23 @@ def combine (k c : Int) : State × Res → State × Res
   | (s, .typeErr) => (s, .typeErr)
   | (s, .fuelOut) => (s, .fuelOut)
 
+/-- position of the check (condition, exception) in the GENERATED list of checks `Hook.__get__` makes after `get_result` -/
+def checkIdx (c : String × String) : List (String × String) → Option Nat
+  | [] => none
+  | x :: xs => if x == c then some 0 else (checkIdx c xs).map (· + 1)
+
+/-- `get_result` returned `None`: what `Hook.__get__` does is read from the GENERATED tables - with the check
+    `if result is None: raise AttributeError` in front of the store nothing is stored; were the store in front of it, `None`
+    would be stored first; without the check `None` would be stored and returned -/
+def noneOutcome (i : Inst) (n : Name) (s : State) : State × Res :=
+  match checkIdx ("is None", "AttributeError") Gen.C02.Hooks.getChecks with
+  | some k => if k < Gen.C02.Hooks.getStoreAfter then (s, .attrErr) else (s.remember i n none, .attrErr)
+  | none => (s.remember i n none, .none)
+
 /-- tail of `Hook.__get__` after `get_result`: `None` → AttributeError, a value is stored in `__cache__` -/
 def finishGet (i : Inst) (n : Name) : State × Res → State × Res
   | (s, .val v) => (s.remember i n (some v), .val v)
-  | (s, .none) => (s, .attrErr)
+  | (s, .none) => noneOutcome i n s
   | (s, .attrErr) => (s, .attrErr)
   | (s, .typeErr) => (s, .typeErr)
   | (s, .fuelOut) => (s, .fuelOut)
@@ -206,6 +228,15 @@ def reevalLoop (fuel : Nat) (i : Inst) : State → List Name → State × Res
     | (st1, .attrErr) => (st1, .attrErr)
     | (st1, .typeErr) => (st1, .typeErr)
     | (st1, .fuelOut) => (st1, .fuelOut)
+
+/-- `reevaluate_cache` as the GENERATED description of its body says: every remembered name (a copy of the key list) is
+    recomputed with `get_result` and stored whatever the result / the cache is cleared / a body the model has no reading
+    for (then no theorem about re-evaluation can be proved: the result is the model's "did not finish") -/
+def reeval (fuel : Nat) (i : Inst) (st : State) : State × Res :=
+  if Gen.C02.Hooks.reevalMode == "for each remembered name (copy): __cache__[name] := hook.get_result(self)" then
+    reevalLoop fuel i st (keys (st.obj i).cache)
+  else if Gen.C02.Hooks.reevalMode == "clear" then (st.setObj i { st.obj i with cache := [] }, .none)
+  else (st, .fuelOut)
 
 /-- `root_hook_fallback`: `getattr(other, name, None)` on the configured object (default: `None`) -/
 def fallback (fuel : Nat) (st : State) (i : Inst) (n : Name) : State × Res :=
@@ -263,8 +294,15 @@ inductive Out where
   | vals (r : Res) (l : List Val)
   deriving DecidableEq, Repr
 
-def hasSet (st : State) (i : Inst) (n : Name) : Bool := (lookup n (st.obj i).dict).isSome
-def hasCached (st : State) (i : Inst) (n : Name) : Bool := (lookup n (st.obj i).cache).isSome
+/-- `name in self.<dictionary>` for the dictionary named in the source -/
+def hasIn (o : Obj) (n : Name) : String → Bool
+  | "__dict__" => (lookup n o.dict).isSome
+  | "__cache__" => (lookup n o.cache).isSome
+  | _ => false
+
+/-- `has_set` / `has_cached`: the dictionary is the one the GENERATED tables name -/
+def hasSet (st : State) (i : Inst) (n : Name) : Bool := hasIn (st.obj i) n Gen.C02.Hooks.hasSetIn
+def hasCached (st : State) (i : Inst) (n : Name) : Bool := hasIn (st.obj i) n Gen.C02.Hooks.hasCachedIn
 
 /-- one operation; the trace is reset first, so that `(step ..).1.trace` is the invocation log of this operation -/
 def step (fuel : Nat) (st0 : State) (op : Op) : State × Out :=
@@ -275,7 +313,7 @@ def step (fuel : Nat) (st0 : State) (op : Op) : State × Out :=
   | .read i n => let r := ev fuel st (.get i n); (r.1, .res r.2)
   | .assign i n v => (st.assign i n v, .ok)
   | .delete i n => (st.setObj i { st.obj i with dict := del n (st.obj i).dict }, .ok)
-  | .reevaluate i => let r := reevalLoop fuel i st (keys (st.obj i).cache); (r.1, .res r.2)
+  | .reevaluate i => let r := reeval fuel i st; (r.1, .res r.2)
   | .clearCache i => (st.setObj i { st.obj i with cache := [] }, .ok)
   | .addImpl id c n b => ({ st with regs := st.regs ++ [{ id := id, cls := c, hook := n, body := b }] }, .ok)
   | .removeImpl id => ({ st with regs := st.regs.filter fun r => r.id != id }, .ok)
